@@ -16,7 +16,7 @@ Idioms accepted for each test are listed in the tables / functions below, one co
 """
 import re
 from .common import *
-from .C09 import is_empty_vec_operand, vec_of, root_of, agg_def, construction_of, construction_carry, seq_sources, pushes_into, created_empty, fresh_id, open_up, _whole_defs, _callmap, REF_TRANSPARENT
+from .C09 import once_per_iteration, Loop, is_empty_vec_operand, vec_of, root_of, agg_def, construction_of, construction_carry, seq_sources, pushes_into, created_empty, fresh_id, open_up, _whole_defs, _callmap, REF_TRANSPARENT
 
 VIEW = 'norm'
 
@@ -607,9 +607,36 @@ def linear_terms(e, sign=1, atom=lambda x: False):
     return [(sign, e)]
 
 
-def is_power_of_two(body, e, is_index):
-    """2^i with is_index(i).  Idioms: 2f64.powi(i as i32) | 2f64.powf(i as f64) | (i as f64).exp2() | (1 << i) as f64"""
+def doubling_accumulator(body, l, lo):
+    """local l holds 2^i in iteration i of loop `lo` (which counts from 0): 1.0 before the loop, doubled once on every way
+    round, after its last read of the round"""
+    if lo is None or l is None or l < 0 or body.locals[l] != 'f64': return False
+    ds = _whole_defs(body, l)
+    inside = [d for d in ds if d[1] in lo[4]]; outside = [d for d in ds if d[1] not in lo[4]]
+    if len(inside) != 1 or len(outside) != 1 or inside[0][0] != 'stmt' or outside[0][0] != 'stmt': return False
+    ov = outside[0][2]['rv']
+    if not (ov['k'] == 'use' and ov['ops'][0]['k'] == 'const' and T.f64_const(ov['ops'][0]['v']) == 1.0): return False
+    iv = inside[0][2]['rv']
+    if not (iv['k'] == 'bin' and iv['op'] == 'Mul'): return False
+    a_, b_ = iv['ops']
+    is_l = lambda o: o['k'] in ('copy', 'move') and root_of(body, o)[0] == l
+    is_2 = lambda o: o['k'] == 'const' and T.f64_const(o['v']) == 2.0
+    if not ((is_l(a_) and is_2(b_)) or (is_2(a_) and is_l(b_))): return False
+    inc = inside[0][1]
+    if not T.must_pass(body, lo[2], {lo[1]}, {inc}): return False
+    after = body.reach(body.succ(inc), stop={lo[1]})
+    for b2 in after:
+        if b2 not in lo[4]: continue
+        for st in body.blocks[b2]['st']:
+            if 'rv' in st and any(o['k'] in ('copy', 'move') and o['pl']['l'] == l for o in st['rv'].get('ops', [])): return False
+    return True
+
+
+def is_power_of_two(body, e, is_index, lo=None):
+    """2^i with is_index(i).  Idioms: 2f64.powi(i as i32) | 2f64.powf(i as f64) | (i as f64).exp2() | (1 << i) as f64 |
+    a running weight that starts at 1.0 and is doubled once per iteration"""
     e = strip_casts(e)
+    if e[0] in ('local', 'place') and (e[0] == 'local' or not e[2]) and doubling_accumulator(body, e[1], lo): return True
     if e[0] == 'call' and e[1] in ('powi', 'powf') and 'f64' in e[2] and len(e[3]) == 2: return const_is(e[3][0], 2.0) and is_index(e[3][1])
     if e[0] == 'call' and e[1] == 'exp2' and e[3]: return is_index(e[3][0])
     a = T.arith(e)
@@ -655,6 +682,11 @@ def match_index(a, b, item_bb):
         return T.expr_str(x) == T.expr_str(y)
     if not go(a, b) or not found: return None
     return found[0] if len({T.expr_str(f, 10) for f in found}) == 1 else None
+
+
+def C09_once(body, lo, bbs):
+    """exactly one of the blocks on every way round the loop (the arms of a branch)"""
+    return bool(bbs) and once_per_iteration(body, Loop(body, lo), bbs)[0]
 
 
 def term_sites(ctx, body, new_call, dv_pushes, loop_header):
@@ -730,7 +762,8 @@ def check_coefficients(ctx, R, body, fn, floops, tsites):
         lo = next((l for l in sorted(floops, key=lambda l: len(l[4])) if c.bb in l[4]), None)
         sites.append((c, lo, cop_))
     lsites = [x for x in sites if x[1] is not None]; psites = [x for x in sites if x[1] is None]
-    if len(lsites) != 1 or len(psites) > 1:
+    # several push sites in the same loop are the arms of a branch (`if last { push(capped) } else { push(2^i) }`)
+    if not lsites or len({id(x[1]) for x in lsites}) != 1 or len(psites) > 1:
         ctx.bad(R + '.coef/values', 'T-BRANCHFX', fn, 'terms are pushed at %d places inside loops and %d outside (expected one loop, at most one peeled bit)' % (len(lsites), len(psites)), body.site()); return
     c, lo, ta = lsites[0]
     tv = vec_of(body, c.args[0])
@@ -742,19 +775,22 @@ def check_coefficients(ctx, R, body, fn, floops, tsites):
     in_loop = lambda x: any(n_[0] == 'call' and len(n_) > 4 and n_[4] == item_bb for n_ in T.expr_walk(x))
     at_hi = lambda x: canon(body, strip_casts(x), ()) == hi_c
 
-    def classify(cop_, is_index):
+    def classify(cop_, is_index, site_bb=None):
         cr = root_of(body, cop_)[0]
         kinds = {}
+        if doubling_accumulator(body, cr, lo): return {'power': [site_bb]}
         for d in (_whole_defs(body, cr) if cr is not None else []):
             terms = linear_terms(def_expr(body, d), 1, lambda x: tree_is_width(body, x, 0))
             pos = [t for sg, t in terms if sg > 0]; neg = [t for sg, t in terms if sg < 0]
-            if len(terms) == 1 and pos and is_power_of_two(body, pos[0], is_index): kinds.setdefault('power', []).append(d[1])
-            elif len(pos) == 2 and len(neg) == 1 and is_power_of_two(body, neg[0], is_index) and \
+            if len(terms) == 1 and pos and is_power_of_two(body, pos[0], is_index, lo): kinds.setdefault('power', []).append(d[1])
+            elif len(pos) == 2 and len(neg) == 1 and is_power_of_two(body, neg[0], is_index, lo) and \
                     sorted((tree_is_width(body, t), const_is(t, 1.0)) for t in pos) == [(False, True), (True, False)]: kinds.setdefault('capped', []).append(d[1])
             else: kinds.setdefault('other', []).append(d[1])
         return kinds
 
-    kinds = classify(ta, in_loop)
+    kinds = {}
+    for c_, lo_, cop_ in lsites:
+        for k_, bbs_ in classify(cop_, in_loop, c_.bb).items(): kinds.setdefault(k_, []).extend(bbs_)
     if psites:
         # loop over 0..n-1 pushes 2^i, the peeled copy pushes the capped coefficient for i = n - 1 (= the loop's upper end)
         pk = classify(psites[0][2], at_hi)
@@ -1083,6 +1119,12 @@ def check(ctx):
                 vals = [T.f64_const(o['v']) if o['k'] == 'const' else None for o in st2['rv']['ops']]
                 d = dict(zip(st2['rv']['fields'], vals))
                 okb = d.get('lower') == 0.0 and d.get('upper') == 1.0
+        if not okb:
+            # `Bound::new(0.0, 1.0)` (the crate's checked bound) converted into the message: the same two numbers
+            for c_ in s.call_objs:
+                if c_.item == 'new' and re.search(r'\bBound\b', c_.name) and 'v1::' not in c_.name.split('>::')[0][-12:] and len(c_.args) == 2:
+                    vals = [T.f64_const(o['v']) if o['k'] == 'const' else None for o in c_.args]
+                    if vals == [0.0, 1.0]: okb = True
         ctx.check(okb, R + '.vars/bound-0-1', 'T-CONST', fn, 'bound of the new variables is not Some([0,1])', body.site(bi))
         idop = a.operand('id')
         ids = fresh_id(ctx, R + '.vars/fresh-id', body, idop, 'id of the new binary variable', body.site(bi), fn, s=a.slice('id'))
@@ -1124,9 +1166,18 @@ def check(ctx):
             # Ok(Linear::new(terms, c)): c = ceil(lower), and the elements of `terms` are pushed — in a loop once per iteration, or
             # in a peeled copy — as (the id given to the variable of the same bit, _).  "The same id" = the same canonical
             # expression (see canon): the same local, or recomputed from the same inputs in a loop over the same range
-            d = _whole_defs(body, root_of(body, rst['rv']['ops'][0])[0])
+            rX = root_of(body, rst['rv']['ops'][0])[0]
+            d = _whole_defs(body, rX)
             new = _callmap(body).get(d[0][1]) if len(d) == 1 and d[0][0] == 'call' else None
             precise = False; seen_ids = []
+            if new is not None and new.item in ('collect', 'from_iter') and rX is not None and body.locals[rX].endswith('v1::Linear') and len(new.args) == 1:
+                # `terms.collect::<Linear>()` is `Linear::new(terms, 0.0)` (FromIterator for Linear); the constant is what is then
+                # assigned to `.constant` (exactly once)
+                asg = [st2 for b2, st2 in body.stmts() if st2['dst']['l'] == rX and [q.get('f') for q in st2['dst']['p'] if isinstance(q, dict)] == ['constant']]
+                if len(asg) == 1 and asg[0]['rv']['k'] == 'use':
+                    class _New: pass
+                    nn = _New(); nn.name = 'linear::<impl v1::Linear>::new'; nn.args = [new.args[0], asg[0]['rv']['ops'][0]]; nn.bb = new.bb
+                    new = nn
             if new is not None and re.search(r'impl v1::Linear>::new(::<.*>)?$', new.name) and len(new.args) == 2:
                 ts_ = term_sites(ctx, body, new, pushes, header)
                 tp = [x[0] for x in ts_] if ts_ else []
@@ -1142,7 +1193,7 @@ def check(ctx):
                     # both are pushed exactly once per iteration of the same loop (no peeled copies)
                     ids_ok = not peeled and len(looped) == 1 and len(tp) == 1 and inner(tp[0].bb) is loop
                 else:
-                    ids_ok = sorted(x or '' for x in seen_ids) == sorted(site_ids)
+                    ids_ok = {x or '' for x in seen_ids} == set(site_ids) and (len(seen_ids) == len(site_ids) or C09_once(body, loop, [x.bb for x in tp if x.bb in blocks]))
                 precise = okp and ids_ok and any('ITEM<' in x for x in site_ids) and is_rounded(xexpr(body, new.args[1]), 'ceil', 'lower')
                 check_coefficients(ctx, R, body, fn, floops, ts_)
             ctx.check(precise, R + '.result/uses-new-ids-and-lower', 'T-CARRY', fn,
